@@ -320,6 +320,22 @@ def verify(t: Target, seed=0, prefixes=None, budget=None, budget_s=None):
     globs = vars(mod)
     target_func = Func(node, None, globs, name=t.qualname)
     eng.target_func = target_func
+    # loops are addressed by their ordinal within the function (pre-order over For/While, nested defs excluded)
+    ords = {}
+    def _walk(nodes, k=[0]):
+        for n in nodes:
+            if isinstance(n, (ast.FunctionDef, ast.Lambda, ast.ClassDef)):
+                continue
+            if isinstance(n, (ast.For, ast.While)):
+                k[0] += 1
+                ords[id(n)] = k[0]
+            _walk(list(ast.iter_child_nodes(n)), k)
+    _walk(node.body)
+    eng.loop_ordinals = ords
+    missing = [k for k in t.loops if isinstance(k, tuple) and k[0] == 'loop' and k[1] not in ords.values()]
+    if missing:
+        res['undecided'].append(f'stale sidecar: loop ordinals {missing} do not exist in {t.qualname}')
+        return res
     worklist = [list(x) for x in (prefixes if prefixes is not None else [[]])]
     npaths = 0
     res['leftover'] = []
@@ -379,8 +395,8 @@ def verify(t: Target, seed=0, prefixes=None, budget=None, budget_s=None):
                 else:
                     p.oblige(f'noexc.{exc.cls.__name__}@{p.line}', False, info={'clause': None, 'env': env, 'outcome': outcome})
         except PathEnd:
-            worklist.extend(p.alternatives)
-            continue
+            # the path was cut (loop head / infeasible assumption): obligations collected so far still count
+            pass
         except Unsupported as u:
             res['undecided'].append(f'unsupported: {u} (line {p.line})')
             worklist.extend(p.alternatives)
@@ -565,6 +581,15 @@ def _flatten_and(g):
         for c in g.children():
             out.extend(_flatten_and(c))
         return out
+    if z3.is_implies(g):
+        parts = _flatten_and(g.arg(1))
+        if len(parts) > 1:
+            return [z3.Implies(g.arg(0), c) for c in parts]
+    if z3.is_or(g) and g.num_args() == 2 and z3.is_not(g.arg(0)):
+        # (not a) or (b and c)
+        parts = _flatten_and(g.arg(1))
+        if len(parts) > 1:
+            return [z3.Or(g.arg(0), c) for c in parts]
     return [g]
 
 
